@@ -1,4 +1,5 @@
 pub mod gen;
+pub mod geom;
 pub mod props;
 pub mod raster4;
 pub mod runner;
